@@ -184,22 +184,34 @@ func cmdCheck(args []string) int {
 	nViol, nKnown, nDis := 0, 0, 0
 	var violations []Obligation
 	usedKnown := map[string]bool{}
+	knownSeen := map[string]int{}
 	for _, o := range all {
 		switch o.verdict {
 		case Discharged:
 			nDis++
 		default:
 			base := o.Construct
+			variant := ""
 			if i := strings.Index(base, " ["); i >= 0 {
+				base, variant = base[:i], base[i:]
+			}
+			if i := strings.LastIndex(base, " #"); i >= 0 {
 				base = base[:i]
 			}
 			if f, ok := known[o.Rule+"|"+base]; ok {
-				if !usedKnown[o.Rule+"|"+base] {
-					fmt.Printf("KNOWN-FINDING: property=%s %s [%s %s at %s]\n", ps.ID, f.WhatFails, o.Rule, base, o.Pos)
+				cnt := f.Count
+				if cnt == 0 {
+					cnt = 1
 				}
-				usedKnown[o.Rule+"|"+base] = true
-				nKnown++
-				continue
+				knownSeen[o.Rule+"|"+base+variant]++
+				if knownSeen[o.Rule+"|"+base+variant] <= cnt {
+					if !usedKnown[o.Rule+"|"+base] {
+						fmt.Printf("KNOWN-FINDING: property=%s %s [%s %s at %s]\n", ps.ID, f.WhatFails, o.Rule, base, o.Pos)
+					}
+					usedKnown[o.Rule+"|"+base] = true
+					nKnown++
+					continue
+				}
 			}
 			nViol++
 			violations = append(violations, o)
